@@ -18,6 +18,9 @@ def pairDistance {k d} (L : Mat K k d) (x0 x1 : Vec K d) : K :=
 /-- `pair_score = -1 * pair_distance` -/
 def pairScore {k d} (L : Mat K k d) (x0 x1 : Vec K d) : K := - pairDistance L x0 x1
 
+/-- deprecated `score_pairs`: `pair_distance` plus a `FutureWarning` flag -/
+def scorePairs {k d} (L : Mat K k d) (x0 x1 : Vec K d) : K × Bool := (pairDistance L x0 x1, true)
+
 /-- the closure returned by `get_metric()`: `(u - v).dot(components_.T)`, dot with itself,
 `sqrt` unless `squared` -/
 def metricFun {k d} (L : Mat K k d) (u v : Vec K d) (squared : Bool) : K :=
